@@ -518,6 +518,39 @@ def boolfn_leaf(t: Term):
 
 
 # --------------------------------------------------------------------------- get_outputs
+def _copy_depth_of(v: Term, src: Term) -> Optional[int]:
+    """n if `v` is a copy of `src` with n fresh dict levels (`{k: dict(x) for k, x in src.items()}` -> 2, `dict(src)` -> 1,
+    deepcopy -> 99; a level copied only `if isinstance(x, dict)` counts, other values are left as they are), None if v is not a copy of src."""
+    v = T.strip(v)
+    if v == src:
+        return 0
+    if v[0] == "call" and v[1][0] == "glob" and v[1][1] in ("copy.deepcopy", "deepcopy") and len(v[2]) == 1 and T.strip(v[2][0]) == src:
+        return 99
+    if v[0] == "call" and ((v[1] == T.glob("dict") and len(v[2]) == 1 and T.strip(v[2][0]) == src) or (v[1][0] == "attr" and v[1][2] == "copy" and not v[2] and T.strip(v[1][1]) == src)
+                           or (v[1][0] == "glob" and v[1][1] in ("copy.copy", "copy") and len(v[2]) == 1 and T.strip(v[2][0]) == src)):
+        return 1
+    if v[0] == "bag" and len(v) > 2 and v[2] == "dict" and len(v[1]) == 1 and v[1][0][1][0] == "pair" and len(v[1][0][3]) == 1:
+        el = v[1][0]
+        it = el[3][0]
+        dec = items_iter(it)
+        if dec is None or T.strip(dec[0]) != src or dec[3] != "items" or el[1][1] != dec[1]:
+            return None
+        if el[2] and not all(T.guard_term(g)[0] == "cmp" and T.guard_term(g)[1] in ("!=", "==") for g in el[2]):
+            return None
+        val = T.strip(el[1][2])
+        if val[0] in ("ifexp", "phi") and len(val) == 4:
+            # `dict(x) if isinstance(x, dict) else x`
+            a, b = T.strip(val[2]), T.strip(val[3])
+            other = b if a == dec[2] else a
+            same = a if a == dec[2] else b
+            if same != dec[2] or not (T.strip(val[1])[0] == "call" and T.strip(val[1])[1] == T.glob("isinstance")):
+                return None
+            val = other
+        inner = _copy_depth_of(val, dec[2])
+        return None if inner is None else 1 + inner
+    return None
+
+
 def _get_outputs(ctx: Ctx, c: Collector) -> None:
     fi = ctx.func(GETOUT)
     s = ctx.summ(GETOUT)
@@ -538,8 +571,24 @@ def _get_outputs(ctx: Ctx, c: Collector) -> None:
         e = st[0]
         if e.term[1][2] != OT:
             pr.append(f"the cache entry is stored under {T.show(e.term[1][2])[:60]} instead of the reported output time data.get('time', last_step.time)")
-        if e.term[2] != data:
+        # the entry holds the retrieved data: the reply itself or a copy of it (entity level / attribute level)
+        cv = T.strip(e.term[2])
+        cached_depth = 0 if cv == data else None
+        if cached_depth is None:
+            d_ = _copy_depth_of(cv, data)
+            if d_ is not None:
+                cached_depth = d_
+        if cached_depth is None:
             pr.append("the cache entry is not the retrieved data")
+        # ownership: the reply of an in-process simulator is the simulator's own object. A simulator that keeps one dict for its outputs
+        # and updates it in place changes its *old* cache entries unless the two levels that mosaik reads ([eid][attr]) are copied
+        # (a remote reply is a fresh copy anyway): a slower consumer then sees data from the future when the producer runs ahead
+        pr_alias = []
+        if cached_depth is not None and cached_depth < 2:
+            pr_alias.append(f"the cache entry shares {'the reply itself' if cached_depth == 0 else 'the per-entity dicts of the reply'} with the simulator that returned it "
+                            "(LocalProxy hands over the simulator's own object): a simulator that reuses its output dict rewrites its cached history, "
+                            "and what a slower consumer reads depends on cache on/off, lazy stepping and local/remote")
+        c.add("R13", GETOUT, "the output cache does not alias the simulator's reply", VIOLATED if pr_alias else DISCHARGED, "; ".join(pr_alias), ctx.loc(fi, e))
         own = [x for x in guard_terms(e.guards) if T.contains(x, ("attr", sim, "outputs"))]
         if own != [("cmp", "isnot", ("attr", sim, "outputs"), T.NONE)]:
             pr.append("the cache is not filled exactly when caching is on (outputs is not None)")
